@@ -23,17 +23,19 @@ let state_s s = Printf.sprintf "%s:%d.%d.%d.%d:%s%s" (b s.flag) (List.length s.c
 let ev_s = function Cancelled c -> "X" ^ string_of_int (int_of_nat c) | Digest _ -> "G"
 let enum limit s0 =
   let out = ref [] and n = ref 0 and complete = ref true in
-  let rec go s acc =
+  (* the main thread can busy-wait in remove() (probe / wait with the flag already set): paths are cut at depth 80 *)
+  let rec go s acc depth =
     if !n >= limit then complete := false else begin
       let any = ref false in
+      if depth < 80 then
       for ti = 0 to 1 do
         match step s (nat_of_int ti) with
-        | Some s' -> any := true; go s' (Char.chr (48 + ti) :: acc)
+        | Some s' -> any := true; go s' (Char.chr (48 + ti) :: acc) (depth + 1)
         | None -> ()
-      done;
+      done else complete := false;
       if not !any then begin incr n; let a = Array.of_list (List.rev acc) in out := String.init (Array.length a) (fun i -> a.(i)) :: !out end
     end in
-  go s0 [];
+  go s0 [] 0;
   (if !complete then "COMPLETE " else "PARTIAL ") ^ String.concat " " (List.rev !out)
 
 let () = each_line (fun line ->
